@@ -174,6 +174,28 @@ def check_integer_results(rep, facts, und):
         val = [e for e in p.events if e[0] == 'return'][-1]
         v = val[1]
         if v[0] == 'call' and v[1] == 'ord' and len(v[2]) == 1:
+            # R11.1.char-text: the character is the text between the two delimiting quotes - exactly the first and the last character
+            # of the literal removed, then (optionally) the escape processing; strip("'") / replace also eat an escaped quote ('\\'')
+            base = v[2][0]
+            while base[0] == 'mcall' and base[2] in ('encode', 'decode') and all(is_const(a) for a in base[3]) and not base[4]:
+                base = base[1]
+            if base[0] == 'slice' and all(is_const(b) for b in base[2:5]):
+                bounds = tuple(b[1] for b in base[2:5])
+                if bounds in ((1, -1, None), (1, -1, 1)):
+                    rep.ok('R11.1.char-text', 'the character of a literal is the text between its first and last character')
+                else:
+                    rep.fail(Finding('R11.1.char-text', 'Arithmetic.eval', val[2],
+                                     'the character of a quoted literal is taken as the slice [{}:{}] of the text: not exactly the text between the '
+                                     'two delimiting quotes'.format(bounds[0], bounds[1]), line=val[2].lineno),
+                             instance='character literal = text between the delimiting quotes')
+            elif base[0] == 'mcall' and base[2] in ('strip', 'lstrip', 'rstrip', 'replace', 'removeprefix', 'removesuffix', 'translate'):
+                rep.fail(Finding('R11.1.char-text', 'Arithmetic.eval', val[2],
+                                 'the quotes of a character literal are removed with .{}(..): that also removes / misses quotes that belong to the '
+                                 'character itself (the literal \'\\\'\' = 39 loses its escaped quote), so a documented literal is refused or '
+                                 'misread'.format(base[2]), line=val[2].lineno),
+                         instance='character literal = text between the delimiting quotes')
+            else:
+                und.append('Arithmetic.eval: the text handed to ord() is not read as the literal without its two delimiting quotes: {}'.format(show(base)[:70]))
             rep.ok('R11.1.integer', 'character literal path returns ord(c)')
             continue
         if is_const(v) and type(v[1]) is int:
